@@ -498,6 +498,8 @@ from . import shared
 RULES = RULES + shared.bundle('C01', ['density', 'limits', 'centre', 'unit-sum', 'relative'], ['details', 'kernel', 'kerneldll', 'direct_model', 'weights'])
 from . import folds as _folds
 RULES = RULES + [_folds.fold_rule('C01')]
+from .. import refs as _refs
+RULES = RULES + [_refs.ref_rule('C01')]
 
 
 def run(tier="quick", replay=None):
